@@ -6,7 +6,12 @@ package main
 //   0901  input (view extra-links target api)        -> (snapshot callbacks err)
 //         api 0 = NewFS(dir).Walk(ctx, target, fn); 1 = fsutil.WalkDir(ctx, dir, nil, fn);
 //         2 = fsutil.WalkDir(ctx, dir, &FilterOpt{}, fn); 3 = fsutil.Walk(ctx, dir, nil, fn)
-//   0902  input (((dirstat view extra-links) ...) target) -> ((snapshot ...) callbacks err)
+//         optional 5th field rootform: HOW the walked directory is named to NewFS / Walk / WalkDir
+//         (real directory, symlink to it with absolute / relative link text, symlink chain, through a
+//         symlinked intermediate component, trailing slash, "." / ".." segments, ".." after a symlink,
+//         relative to the working directory ...; see c09PlaceRoot).  The snapshot is always taken of
+//         the directory the name RESOLVES to (checked with the kernel: os.Stat(name) is the same file).
+//   0902  input (((dirstat view extra-links [rootform]) ...) target) -> ((snapshot ...) callbacks err)
 //         SubDirFS over one NewFS per sub-root
 //
 // The input is self-contained: `run` materialises the view in a scratch directory (as root on
@@ -125,16 +130,24 @@ func run0901(in Sx) Sx {
 		view := SxView(in.L[0])
 		target := in.L[2].Str()
 		api := in.L[3].Int()
+		rootform := 0
+		if len(in.L) > 4 {
+			rootform = in.L[4].Int()
+		}
 		dir := WorkDir("c09-")
 		defer os.RemoveAll(dir)
-		root := filepath.Join(dir, "r")
-		if err := os.Mkdir(root, 0755); err != nil {
+		// realdir = the directory that holds the tree; root = the name handed to fsutil
+		realdir, root, err := c09PlaceRoot(dir, rootform)
+		if err != nil {
 			return harnessErr(err)
 		}
-		if err := c09Materialize(view, in.L[1], root); err != nil {
+		if err := c09Materialize(view, in.L[1], realdir); err != nil {
 			return harnessErr(err)
 		}
-		snap, err := snapSx(root)
+		if err := c09SameDir(root, realdir); err != nil {
+			return harnessErr(err)
+		}
+		snap, err := snapSx(realdir)
 		if err != nil {
 			return harnessErr(err)
 		}
@@ -143,11 +156,13 @@ func run0901(in Sx) Sx {
 		var werr error
 		switch api {
 		case 0:
+			// a refusal of NewFS is an outcome of the code under test (reported as the walk's error)
 			f, err := fsutil.NewFS(root)
 			if err != nil {
-				return harnessErr(err)
+				werr = err
+			} else {
+				werr = f.Walk(ctx, target, rec.dirFn)
 			}
-			werr = f.Walk(ctx, target, rec.dirFn)
 		case 1:
 			werr = fsutil.WalkDir(ctx, root, nil, rec.dirFn)
 		case 2:
@@ -165,24 +180,40 @@ func run0902(in Sx) Sx {
 		defer os.RemoveAll(dir)
 		var dirs []fsutil.Dir
 		var snaps []Sx
+		var newfsErr error
 		for i, sd := range in.L[0].L {
-			root := filepath.Join(dir, fmt.Sprintf("r%d", i))
-			if err := os.Mkdir(root, 0755); err != nil {
+			rootform := 0
+			if len(sd.L) > 3 {
+				rootform = sd.L[3].Int()
+			}
+			sub := filepath.Join(dir, fmt.Sprintf("s%d", i))
+			if err := os.Mkdir(sub, 0755); err != nil {
 				return harnessErr(err)
 			}
-			if err := c09Materialize(SxView(sd.L[1]), sd.L[2], root); err != nil {
+			realdir, root, err := c09PlaceRoot(sub, rootform)
+			if err != nil {
 				return harnessErr(err)
 			}
-			snap, err := snapSx(root)
+			if err := c09Materialize(SxView(sd.L[1]), sd.L[2], realdir); err != nil {
+				return harnessErr(err)
+			}
+			if err := c09SameDir(root, realdir); err != nil {
+				return harnessErr(err)
+			}
+			snap, err := snapSx(realdir)
 			if err != nil {
 				return harnessErr(err)
 			}
 			snaps = append(snaps, snap)
 			f, err := fsutil.NewFS(root)
 			if err != nil {
-				return harnessErr(err)
+				newfsErr = err
+				continue
 			}
 			dirs = append(dirs, fsutil.Dir{Stat: SxStat(sd.L[0]), FS: f})
+		}
+		if newfsErr != nil { // outcome of the code under test, reported as the walk's error
+			return L(L(snaps...), L(), N(1))
 		}
 		sfs, err := fsutil.SubDirFS(dirs)
 		if err != nil {
@@ -244,6 +275,134 @@ func run0903(in Sx) Sx {
 	})
 }
 
+// ---------------------------------------------------------------- how the root is named
+
+// Root forms: the same directory reached under different names.  Every form resolves (by the
+// kernel's path resolution) to realdir; what differs is the string handed to NewFS/Walk/WalkDir.
+const (
+	c09RootReal      = iota // <dir>/r
+	c09RootSymAbs           // <dir>/la -> <dir>/r          last component is a symlink, absolute text
+	c09RootSymRel           // <dir>/lr -> r                last component is a symlink, relative text
+	c09RootSymChain         // <dir>/l2 -> l1 -> r          symlink to a symlink
+	c09RootMidSymAbs        // <dir>/mid/r, mid -> <dir>/real    symlinked INTERMEDIATE component
+	c09RootMidSymRel        // <dir>/mid/r, mid -> real
+	c09RootSlash            // <dir>/r/
+	c09RootDotSegs          // <dir>/./x/../r//.            lexical noise only
+	c09RootSymSlash         // <dir>/lr/                    symlink + trailing slash
+	c09RootSymDot           // <dir>/lr/.                   symlink + "." segment
+	c09RootSymDotDot        // <dir>/sl/../r, sl -> o/deep: ".." AFTER a symlink; resolves to <dir>/o/r,
+	//                           while the purely lexical reading <dir>/r is a decoy directory
+	c09RootRelCwd    // the real directory, relative to the process working directory
+	c09RootSymRelCwd // a symlink to it, relative to the process working directory
+	c09RootForms     // number of forms
+)
+
+var c09RootFormNames = []string{"real", "symabs", "symrel", "symchain", "midsymabs", "midsymrel", "slash",
+	"dotsegs", "symslash", "symdot", "symdotdot", "relcwd", "symrelcwd"}
+
+func c09RelToCwd(p string) (string, error) {
+	cwd, err := os.Readlink("/proc/self/cwd") // physical working directory
+	if err != nil {
+		return "", err
+	}
+	return filepath.Rel(cwd, p)
+}
+
+// c09PlaceRoot creates, below the scratch directory dir, the (empty) directory that will hold the
+// tree and whatever links the form needs; returns (that directory, the name to hand to fsutil).
+func c09PlaceRoot(dir string, form int) (string, string, error) {
+	j := func(e ...string) string { return filepath.Join(append([]string{dir}, e...)...) }
+	realdir := j("r")
+	switch form {
+	case c09RootMidSymAbs, c09RootMidSymRel:
+		realdir = j("real", "r")
+	case c09RootSymDotDot:
+		realdir = j("o", "r")
+	}
+	if err := os.MkdirAll(realdir, 0755); err != nil {
+		return "", "", err
+	}
+	name := realdir
+	var err error
+	switch form {
+	case c09RootReal:
+	case c09RootSymAbs:
+		name = j("la")
+		err = os.Symlink(realdir, name)
+	case c09RootSymRel:
+		name = j("lr")
+		err = os.Symlink("r", name)
+	case c09RootSymChain:
+		name = j("l2")
+		if err = os.Symlink("r", j("l1")); err == nil {
+			err = os.Symlink("l1", name)
+		}
+	case c09RootMidSymAbs:
+		name = j("mid") + "/r"
+		err = os.Symlink(j("real"), j("mid"))
+	case c09RootMidSymRel:
+		name = j("mid") + "/r"
+		err = os.Symlink("real", j("mid"))
+	case c09RootSlash:
+		name = realdir + "/"
+	case c09RootDotSegs:
+		if err = os.Mkdir(j("x"), 0755); err == nil {
+			name = dir + "/./x/../r//."
+		}
+	case c09RootSymSlash:
+		name = j("lr") + "/"
+		err = os.Symlink("r", j("lr"))
+	case c09RootSymDot:
+		name = j("lr") + "/."
+		err = os.Symlink("r", j("lr"))
+	case c09RootSymDotDot:
+		if err = os.MkdirAll(j("o", "deep"), 0755); err != nil {
+			break
+		}
+		if err = os.Mkdir(j("r"), 0755); err != nil { // decoy: what a lexical Clean would pick
+			break
+		}
+		if err = os.WriteFile(j("r", "decoy"), []byte("decoy"), 0644); err != nil {
+			break
+		}
+		name = j("sl") + "/../r"
+		err = os.Symlink("o/deep", j("sl"))
+	case c09RootRelCwd:
+		name, err = c09RelToCwd(realdir)
+	case c09RootSymRelCwd:
+		if err = os.Symlink("r", j("lr")); err == nil {
+			name, err = c09RelToCwd(j("lr"))
+		}
+	default:
+		err = fmt.Errorf("unknown root form %d", form)
+	}
+	return realdir, name, err
+}
+
+// c09SameDir checks with the kernel (stat follows symlinks, independent of fsutil / filepath)
+// that name resolves to the directory realdir: the harness layout is what it claims to be.
+func c09SameDir(name, realdir string) error {
+	a, err := os.Stat(name)
+	if err != nil {
+		return err
+	}
+	b, err := os.Lstat(realdir)
+	if err != nil {
+		return err
+	}
+	if !b.IsDir() || !os.SameFile(a, b) {
+		return fmt.Errorf("root name %q does not resolve to %q", name, realdir)
+	}
+	return nil
+}
+
+func c09PickRootForm(r *Rng) int {
+	if r.Chance(50) {
+		return c09RootReal
+	}
+	return 1 + r.Intn(c09RootForms-1)
+}
+
 // ---------------------------------------------------------------- generator
 
 // names around a base x: x and x<c>y with c below and above '/', so that the bytewise
@@ -265,7 +424,6 @@ func c09Names(r *Rng) []string {
 	names = append(names, "b", "c", ".a", "...", strings.Repeat("n", 255), strings.Repeat("é", 127), "日本", "\x01")
 	return names
 }
-
 
 func c09File(name string, content string) *MNode {
 	return &MNode{Name: name, Content: []byte(content), Stat: &types.Stat{Mode: 0644, Size: int64(len(content)), ModTime: 1700000000000000001}}
@@ -398,8 +556,11 @@ func c09View(r *Rng, big bool) ([]*MNode, Sx, string) {
 			st.Mode = uint32(os.ModeSocket) | (st.Mode & 0777)
 		}
 		if m&os.ModeDevice != 0 && r.Chance(30) {
-			st.Devmajor = int64(Pick(r, []int{0, 255, 256, 4095, 511}))
-			st.Devminor = int64(Pick(r, []int{0, 255, 256, 65535, 1048575, 257}))
+			// minors use all 20 bits (>= 65536: bits 16..19 live in dev_t bits 28..31); majors up to 4095
+			// and beyond (the kernel's mknod keeps 12 bits; the expectation is computed from the st_rdev
+			// the snapshot reads back, so any value is a valid recipe)
+			st.Devmajor = int64(Pick(r, []int{0, 255, 256, 4095, 511, 2048, 4096, 70000}))
+			st.Devminor = int64(Pick(r, []int{0, 255, 256, 65535, 65536, 65541, 983040, 1048575, 257, 69632 + r.Intn(900000)}))
 		}
 		if r.Chance(6) && st.Linkname == "" {
 			st.ModTime = Pick(r, []int64{0, 1, -1, -1500000000*1e9 + 7, 4000000000 * 1e9, 999999999})
@@ -449,7 +610,6 @@ func c09View(r *Rng, big bool) ([]*MNode, Sx, string) {
 	return view, L(extras...), cls
 }
 
-
 type c09case struct {
 	kind uint64
 	in   Sx
@@ -477,6 +637,11 @@ func c09Directed() []c09case {
 	for _, t := range []string{"a", "a/x", "a-b", "./a/", "/a", "missing", "a/x/y", "a/missing", "nx/../a b"} {
 		add(0x0901, L(classic, L(), S(t), NI(0)), "sub-target "+t+" (a-b alone: its first link is outside the walked set)")
 	}
+	// inode group {a/x, a/z, a-b} against sub-targets: seenFiles is per Walk call, so only the members at or
+	// below the target count (target a: a/x file, a/z link to a/x; targets a-b and a/z alone: plain files)
+	for _, t := range []string{"", "a", "a-b", "a/z", "a/x"} {
+		add(0x0901, L(classic, L(L(S("a/x"), S("a/z"))), S(t), NI(0)), "three names of one inode, target '"+t+"': the group is cut at the target")
+	}
 	special := []*MNode{
 		c09Dir("d", c09File("f", "x")),
 		c09Special("p", os.ModeNamedPipe|0640, 0, 0),
@@ -503,6 +668,13 @@ func c09Directed() []c09case {
 	bits[3].Stat.ModTime = -1
 	bits[2].Stat.Xattrs = map[string][]byte{"user.a": []byte("1"), "user.b": {}, "trusted.c": {0, 255}}
 	add(0x0901, L(ViewSx(bits), L(), S(""), NI(3)), "sticky dir, setuid/setgid files, mode 0, owner, negative mtime, xattrs")
+	// how the root is named: every form through NewFS.Walk (whole tree and a sub-target) and through one
+	// of the package-level entry points; the expected callbacks never depend on the form
+	for f := 0; f < c09RootForms; f++ {
+		add(0x0901, L(classic, L(), S(""), NI(0), NI(f)), "root named as "+c09RootFormNames[f]+", NewFS.Walk")
+		add(0x0901, L(classic, L(), S("a"), NI(0), NI(f)), "root named as "+c09RootFormNames[f]+", sub-target a")
+		add(0x0901, L(classic, L(), S(""), NI(1+f%3), NI(f)), fmt.Sprintf("root named as %s, entry point %d", c09RootFormNames[f], 1+f%3))
+	}
 	dst := func(name string) Sx {
 		return StatSx(&types.Stat{Path: name, Mode: uint32(os.ModeDir | 0755), ModTime: 1700000000000000009, Uid: 1})
 	}
@@ -512,6 +684,10 @@ func c09Directed() []c09case {
 	add(0x0902, L(L(L(dst("a-b"), classic, L()), L(dst("a"), classic, L()), L(dst("a b"), L(), L())), S("")), "sub-roots a, 'a b', a-b: a/... before 'a b'")
 	add(0x0902, L(L(L(dst("s"), classic, L()), L(dst("r"), ViewSx(abs), L())), S("r/a")), "composite, target r/a")
 	add(0x0902, L(L(L(dst("s"), classic, L()), L(dst("s"), classic, L())), S("")), "duplicate sub-root name")
+	add(0x0902, L(L(L(dst("s"), classic, L()), L(dst("t"), classic, L(L(S("../../s0/r/a/x"), S("zz")), L(S("../../s0/r/a b"), S("a/!k"))))), S("")),
+		"files of sub-root s hard-linked into sub-root t: every sub-root has its own inode map, t/zz and t/a/!k are plain files, link names never cross sub-roots")
+	add(0x0902, L(L(L(dst("s"), classic, L(), NI(c09RootSymRel)), L(dst("r"), ViewSx(abs), L(), NI(c09RootSymDotDot)), L(dst("q"), classic, L(), NI(c09RootMidSymAbs))), S("")),
+		"sub-roots given as a symlink, as sl/../r (.. after a symlink) and through a symlinked parent")
 	add(0x0902, L(L(L(dst("s/t"), classic, L())), S("")), "sub-root name with separator")
 	return out
 }
@@ -633,8 +809,9 @@ func genC09(g *Gen) {
 		default:
 			api = 3
 		}
-		in := L(ViewSx(view), extras, S(target), NI(api))
-		g.Emit(0x0901, in, c09Nontrivial(view), fmt.Sprintf("walk-api%d-%s-%s", api, tcls, cls))
+		rf := c09PickRootForm(r)
+		in := L(ViewSx(view), extras, S(target), NI(api), NI(rf))
+		g.Emit(0x0901, in, c09Nontrivial(view), fmt.Sprintf("walk-api%d-%s-%s-root:%s", api, tcls, cls, c09RootFormNames[rf]))
 	}
 	// (b) SubDirFS
 	m := g.Vol(80, 1500)
@@ -646,6 +823,7 @@ func genC09(g *Gen) {
 		views := map[string][]*MNode{}
 		nontriv := false
 		cls := "subdirs"
+		rooted := ""
 		for j := 0; j < k; j++ {
 			name := Pick(r, pool)
 			if r.Chance(6) {
@@ -677,7 +855,14 @@ func genC09(g *Gen) {
 			if _, ok := views[name]; !ok {
 				views[name] = view
 			}
-			sds = append(sds, L(StatSx(st), ViewSx(view), extras))
+			rf := c09RootReal
+			if r.Chance(35) {
+				rf = c09PickRootForm(r)
+			}
+			if rf != c09RootReal {
+				rooted = "-rooted"
+			}
+			sds = append(sds, L(StatSx(st), ViewSx(view), extras, NI(rf)))
 		}
 		sort.Strings(names)
 		for j := 1; j < len(names); j++ {
@@ -703,6 +888,6 @@ func genC09(g *Gen) {
 			target = "nosuchsub"
 			cls += "-tx"
 		}
-		g.Emit(0x0902, L(L(sds...), S(target)), nontriv, cls)
+		g.Emit(0x0902, L(L(sds...), S(target)), nontriv, cls+rooted)
 	}
 }
